@@ -331,14 +331,31 @@ func (fc *FC) Recurrence(r *RF) (init, next *RF) {
 		// an expression over one loop-carried quantity and loop-invariant values (a counter
 		// plus an offset, a running sum plus the terms added after the loop): its value in the
 		// first and in the next iteration follow from that quantity's
+		// (the arguments of a bound helper's loop atom identify the instance: they are not
+		// themselves quantities carried by this expression)
 		var carried []*Atom
-		for _, a := range r.Atoms(true) {
-			if _, ok := fc.X.phiOf[a.ID]; ok {
-				carried = append(carried, a)
-			} else if _, ok := fc.X.memphiOf[a.ID]; ok {
-				carried = append(carried, a)
+		seenC := map[AtomID]bool{}
+		var walk func(v *RF)
+		walk = func(v *RF) {
+			for _, a := range v.Atoms(false) {
+				if seenC[a.ID] {
+					continue
+				}
+				seenC[a.ID] = true
+				if _, ok := fc.X.phiOf[a.ID]; ok {
+					carried = append(carried, a)
+					continue
+				}
+				if _, ok := fc.X.memphiOf[a.ID]; ok {
+					carried = append(carried, a)
+					continue
+				}
+				for _, ar := range a.Args {
+					walk(ar)
+				}
 			}
 		}
+		walk(r)
 		if len(carried) != 1 {
 			anchorFail("not a loop-carried value: %s", clip(r.String(), 200))
 		}
@@ -1247,6 +1264,15 @@ func (b *B) LoopSystem(rule, construct, where string, fc *FC, from *RF, env *Spe
 	type rec struct{ init, next *RF }
 	recs := make([]rec, len(phis))
 	for i, p := range phis {
+		if base[i] != i {
+			// an offset candidate that has no recurrence of its own is simply not a candidate
+			in, nx := recurrenceOrNil(fc, p)
+			if in == nil {
+				in, nx = fc.X.S.Var("norec", false), fc.X.S.Var("norec", false)
+			}
+			recs[i] = rec{in, nx}
+			continue
+		}
 		in, nx := fc.Recurrence(p)
 		recs[i] = rec{in, nx}
 	}
@@ -1467,6 +1493,44 @@ func (b *B) CheckSwap(rule, fnName string) {
 // comparison of the same two sides is decided per region; other boolean
 // atoms are split true/false. Makes the nesting order of if-then-else and
 // the way a comparison is written (x<0 vs !(0<=x), a<=b vs !(b<a)) irrelevant.
+// EquivByCasesUnder: EquivByCases with the cases that contradict the given
+// assumptions left out (they cannot occur where the comparison is made).
+func (x *Extractor) EquivByCasesUnder(a, b *RF, assume []Assumption) bool {
+	old := x.caseAssume
+	x.caseAssume = expandAssumptions(assume)
+	defer func() { x.caseAssume = old }()
+	return x.EquivByCases(x.SimplifyUnder(a, assume), x.SimplifyUnder(b, assume), 0)
+}
+
+// caseFeasible: the case described by `as` does not contradict the standing assumptions.
+func (x *Extractor) caseFeasible(as []Assumption) bool {
+	for _, c := range x.caseAssume {
+		if c.Cond == nil {
+			continue
+		}
+		if os.Getenv("GMSA_TRACE_EQ") == "4" {
+			fmt.Fprintf(os.Stderr, "FEAS %s want=%v got=%v under", clip(c.Cond.String(), 120), c.True, x.EvalCond(c.Cond, as))
+			for _, a := range as {
+				if a.Cond != nil {
+					fmt.Fprintf(os.Stderr, " [%v %s]", a.True, clip(a.Cond.String(), 100))
+				}
+			}
+			fmt.Fprintln(os.Stderr)
+		}
+		switch x.EvalCond(c.Cond, as) {
+		case True:
+			if !c.True {
+				return false
+			}
+		case False:
+			if c.True {
+				return false
+			}
+		}
+	}
+	return true
+}
+
 func (x *Extractor) EquivByCases(a, b *RF, depth int) bool {
 	if depth == 0 {
 		x.caseBudget = 4000
@@ -1544,6 +1608,25 @@ func (x *Extractor) EquivByCases(a, b *RF, depth int) bool {
 				fmt.Fprintf(os.Stderr, "EQ-SPLIT depth=%d region=%d of d=%s\n", depth, reg, clip(d.String(), 300))
 			}
 			as := x.regionAssumptions([]*RF{a, b}, d, reg)
+			var nested []Assumption // the case itself is a standing assumption for the cases nested in it
+			if len(x.caseAssume) > 0 {
+				// the region's own defining comparison, for the feasibility test
+				var self Assumption
+				switch reg {
+				case -1:
+					self = Assumption{Cond: x.S.Cmp("<", la.Args[0], la.Args[1]), True: true}
+				case 0:
+					self = Assumption{Cond: x.S.Cmp("==", la.Args[0], la.Args[1]), True: true}
+				case 1:
+					self = Assumption{Cond: x.S.Cmp("<", la.Args[1], la.Args[0]), True: true}
+				default:
+					self = Assumption{Cond: x.S.Cmp("<=", la.Args[0], la.Args[1]), True: false}
+				}
+				if !x.caseFeasible(append(append([]Assumption{}, as...), self)) {
+					continue
+				}
+				nested = append(append([]Assumption{}, x.caseAssume...), self)
+			}
 			a2, b2 := x.SimplifyUnder(a, as), x.SimplifyUnder(b, as)
 			if reg == 0 {
 				if sub := solveZero(x.S, d, a2, b2); sub != nil {
@@ -1553,7 +1636,13 @@ func (x *Extractor) EquivByCases(a, b *RF, depth int) bool {
 			if os.Getenv("GMSA_TRACE_EQ") == "3" {
 				fmt.Fprintf(os.Stderr, "EQ-REGION depth=%d region=%d\n  a2=%s\n  b2=%s\n", depth, reg, clip(a2.String(), 300), clip(b2.String(), 300))
 			}
-			if !x.EquivByCases(a2, b2, depth+1) {
+			saved := x.caseAssume
+			if nested != nil {
+				x.caseAssume = nested
+			}
+			same := x.EquivByCases(a2, b2, depth+1)
+			x.caseAssume = saved
+			if !same {
 				return false
 			}
 		}
@@ -1561,6 +1650,9 @@ func (x *Extractor) EquivByCases(a, b *RF, depth int) bool {
 	}
 	for _, truth := range []bool{true, false} {
 		as := []Assumption{{Cond: leaf, True: truth}}
+		if len(x.caseAssume) > 0 && !x.caseFeasible(as) {
+			continue
+		}
 		if !x.EquivByCases(x.SimplifyUnder(a, as), x.SimplifyUnder(b, as), depth+1) {
 			return false
 		}
@@ -2503,7 +2595,17 @@ func (b *B) EqAt(rule, construct, where string, fc *FC, at ssa.Instruction, got,
 // EqualAt: got ≡ want given the branch conditions known at instruction at.
 func (fc *FC) EqualAt(at ssa.Instruction, got, want *RF) bool {
 	g, w := fc.atSite(at, got, want)
-	return g.Equal(w) || fc.X.EquivByCases(g, w, 0)
+	return g.Equal(w) || fc.X.EquivByCasesUnder(g, w, fc.SiteAssumptions(at))
+}
+
+// SiteAssumptions: the context's assumptions and the branch conditions known at instruction at.
+func (fc *FC) SiteAssumptions(at ssa.Instruction) []Assumption {
+	var as []Assumption
+	as = append(as, fc.Assume...)
+	for _, f := range fc.Ctx.Facts(at.Block()) {
+		as = append(as, Assumption{Cond: fc.Val(f.Cond), True: f.Val})
+	}
+	return expandAssumptions(as)
 }
 
 // atSite: both values simplified under the facts at the site, equalities among them substituted.
@@ -2587,7 +2689,7 @@ func (fc *FC) InvariantEq(expr, want *RF) bool {
 func (b *B) fullScanDown(rule, construct, where string, lfc *FC, hdr *ssa.BasicBlock, k, ki, idx, n *RF) bool {
 	s := b.X.S
 	kat := k.SingleAtom()
-	if first := idx.Subst(map[AtomID]*RF{kat.ID: ki}); !first.Equal(n.Sub(s.Int(1))) {
+	if first := idx.Subst(map[AtomID]*RF{kat.ID: ki}); !first.Equal(n.Sub(s.Int(1))) && !b.X.EquivByCases(first, n.Sub(s.Int(1)), 0) {
 		b.R.Fail(rule, construct, where, "the first index of the descending scan is "+clip(first.String(), 80)+", not "+clip(n.String(), 40)+"-1")
 		return false
 	}
